@@ -33,3 +33,53 @@ na("C27", "DBOS recovery across process stops: crash points and SQL semantics ar
 na("C28", "the state is a SQLite schema driven by SQL scripts; no SQL semantics within reach (DESIGN.md 6)")
 na("C37", "all state lives behind SQL strings in SQLite; proving it would mean hand-modelling each statement, i.e. "
           "a model, not the code (DESIGN.md 6)")
+
+claim("C01",
+      "Inductive invariant over the pure reducer, discharged for all states, ticks, queue lengths and num_workers: per "
+      "step, in_progress never exceeds num_workers and its worker ids are pairwise distinct and in [0, num_workers); "
+      "every reducer function (_add_or_enqueue_event, rewind_in_progress, _process_*_tick, _reduce_tick) preserves it; "
+      "new work takes the smallest free slot; the only worker a result tick starts on the reporting slot is its own "
+      "re-run, and then the slot stays occupied.",
+      "The link 'one CommandRunWorker = one real invocation, whose TickStepResult is delivered once' (runner main loop, "
+      "adapters, asyncio) is trusted; free-slot existence uses the pigeonhole lemma (lemmas/FreeSlot.lean) as an "
+      "assumed instance at _add_or_enqueue_event.")
+
+claim("C02",
+      "Routing postcondition of _process_add_event_tick, for every state and event: per step exactly one of - woken "
+      "through a matching waiter (event stored as the waiter's result, not delivered as input) / handed the event "
+      "exactly once when its exact type is accepted and the optional target matches (one more attempt carrying the "
+      "tick's retry fields) / left untouched; UnhandledEvent is emitted exactly when nothing took the event and it is "
+      "not an InputRequiredEvent.",
+      "ctx.send_event's fire-and-forget task, the runner's command execution (CommandQueueEvent -> TickAddEvent) and "
+      "'each returned event yields one CommandQueueEvent' completeness are not under contract yet.")
+
+claim("C03",
+      "(a) work conservation (queued events only while all num_workers slots are busy) is an inductive invariant of "
+      "every non-exiting tick, incl. rewind; (b) _check_idle_state is exactly 'running and all queues and in_progress "
+      "empty'; CommandScheduleIdleCheck is emitted only as the last command and only in a quiescent state; a "
+      "TickIdleCheck announces idleness iff the state is quiescent at that moment.",
+      "Part (c) of the property (no idle announcement while a delayed retry / undelivered tick is pending in the runner's "
+      "heap) concerns _ControlLoopRunner state that the reducer cannot see; it is not covered by these obligations.")
+
+claim("C04",
+      "For every tick kind the reducer is total (raises only the documented ValueError for an unknown worker) and every "
+      "exit command is immediately preceded by the publication of the matching terminal event (same StopEvent / "
+      "WorkflowFailedEvent with the same exception / WorkflowTimedOutEvent / WorkflowCancelledEvent; idle release is the "
+      "documented exception). A raising user retry policy no longer escapes (fix 355c975).",
+      "Runner side (commands after an exit are not executed; stream_published_events stops at the first StopEvent; "
+      "events written concurrently by still-running workers) is trusted.")
+
+claim("C08",
+      "Reducer failed-branch: an exhausted failure is routed iff the step has an owning handler whose recovery count "
+      "for this lineage stays within max_recoveries; the StepFailedEvent is addressed to that handler with the count "
+      "incremented and the other counts unchanged; otherwise WorkflowFailedEvent + CommandFailWorkflow carry the "
+      "original exception.",
+      "Construction of handler_for_step / catch_error_handlers (validate.py, Workflow._validate incl. "
+      "disable_validation) is not under contract yet.")
+
+claim("C35",
+      "Per tick: starting work publishes RUNNING for the assigned slot, waiting for capacity publishes PREPARING; a "
+      "result tick either gives the slot up - NOT_RUNNING for that worker id is the first command and the step holds "
+      "one piece of work less - or re-runs it in place; waiter timeouts and routing only ever emit start commands.",
+      "Whole-stream balance over a run (RUNNING ... NOT_RUNNING pairing across ticks) follows from these per-tick facts "
+      "plus the trusted runner; 'InputRequiredEvent published exactly once' is not stated as a clause yet.")
